@@ -109,6 +109,9 @@ def main():
     o = ['From Coq Require Import List String PArith.', 'Import ListNotations.', 'Open Scope string_scope.',
          'Definition sym_table : list (positive * string) := [' +
          ';\n '.join(f'({i}%positive, {q(n)})' for n, i in sorted(SY.e.items(), key=lambda x: x[1])) + '].']
+    o.append('(* one constant per element name, so that witnesses in Properties/*.v are readable *)')
+    for n, i in sorted(SY.e.items(), key=lambda x: x[1]):
+        o.append(f'Definition s_{ident(n)} : positive := {i}%positive.')
     changed.append(write_if_changed(os.path.join(gen, 'Names.v'), '\n'.join(o) + '\n'))
     # ---- Templates.v  (library side particles; used by models and theorems)
     o = ['From MX Require Import Spec.Particle.', 'From Coq Require Import String.', 'Import ListNotations.',
